@@ -129,6 +129,9 @@ type call struct {
 	CtxDead  int // step at which its own ctx was cancelled or expired (-1: never)
 	Deadline bool
 	Missed   bool // reached the remote path
+	// MissRelease: the step at which the call left the point right after its cache miss (-1: never got there). A
+	// download that had completely finished before that step cannot be one the call waited for.
+	MissRelease int
 	Owned    int  // downloads it started
 	ctxErr   func() error
 }
@@ -474,6 +477,11 @@ func (w *world) enabled(order []int, draining bool) []kernel.Event {
 			}
 		default:
 			evs = append(evs, kernel.Event{Name: "wake:" + p.Task + "@" + p.Point, Weight: 3, Drain: true, Apply: func() {
+				if p.Point == "verify.miss" && len(p.Task) == 2 && p.Task[0] == 'c' {
+					if c := w.active[int(p.Task[1]-'0')]; c != nil {
+						c.MissRelease = w.s.Step
+					}
+				}
 				if strings.HasPrefix(p.Task, "u:") {
 					d := w.updOpen[p.Task]
 					if d != nil {
@@ -587,7 +595,7 @@ func (w *world) invoke(i int) {
 	n := w.cur[i]
 	w.cur[i]++
 	ch := w.s.Tape.Sub(fmt.Sprintf("call:c%d.%d", i, n))
-	c := &call{Caller: i, N: n, Invoke: w.s.Step, Return: -1, CtxDead: -1}
+	c := &call{Caller: i, N: n, Invoke: w.s.Step, Return: -1, CtxDead: -1, MissRelease: -1}
 	// bias towards keys that are served now or will be rotated in next
 	switch x := ch.Int(10); {
 	case x < 5 && len(w.served) > 0:
